@@ -11,8 +11,9 @@
      after     projection after the filter (= before when raised # "")
      raised2   "" or the exception class of a second application ; after2 = projection after it
      obs_raised "" or the exception class raised by ISD.from_model on the filtered document
-     visb      per tick 0..H: text ids ISD.from_model shows for the document before the filter
-     obsa      per tick 0..H: [tid, color, bg, ta] of every text ISD.from_model shows after the filter
+     ticks     the query times (half seconds): every boundary of the document before the filter, 0, one after the last
+     visb      per tick: text ids ISD.from_model shows for the document before the filter
+     obsa      per tick: [tid, color, bg, ta] of every text ISD.from_model shows after the filter
                (computed colour of the span, computed background and textAlign of its paragraph)
 
    Verdict lines: <<"FAIL", id, clause>>.  Clauses starting with "MACHINERY_" indict the harness, not ttconv.
@@ -40,13 +41,13 @@ Obs_BgOk(rec, o)    == rec.cfg.bg # "none" => o.bg = rec.cfg.bg
 Obs_TaOk(rec, o) ==
   IF ~rec.cfg.pta THEN o.ta = "center"
   ELSE IF RegionConflict(rec.before) \/ ~HasTid(rec.before, o.tid) THEN TRUE
-  ELSE LET p == ParaOf(rec.before, NodeOfTid(rec.before, o.tid)) IN
-       p # 0 => o.ta = ComputedTa(rec.before, p)
+  ELSE LET n == NodeOfTid(rec.before, o.tid) IN
+       ParaOf(rec.before, n) # 0 => o.ta = ComputedTa(rec.before, n)
 
 Obs_All(rec, P(_, _)) == \A t \in 1..Len(rec.obsa) : \A k \in 1..Len(rec.obsa[t]) : P(rec, rec.obsa[t][k])
 
 SpecAgreesWithIsd(rec) ==
-  \A t \in 1..Len(rec.visb) : Range(rec.visb[t]) = TextAt(rec.before, t - 1)
+  \A t \in 1..Len(rec.visb) : Range(rec.visb[t]) = TextAt(rec.before, rec.ticks[t])
 
 CheckRec(j) ==
   LET rec == Recs[j]
